@@ -5,8 +5,8 @@ Contract on ExplorerScriptSsbDecompiler(infos, ops, coros, ...).convert() for we
   (b) if the first line of the returned text is `//?: is-ssb-script: true` (fallback), ExplorerScriptSsbCompiler.compile(text)
       succeeds and reproduces the input op for op: routines, kinds/targets, coroutine names, op names, parameters (param_key),
       jump targets denoting the corresponding ops;
-  (c) a text without the marker is at least syntactically ExplorerScript (otherwise the decompiler "could not produce structured
-      ExplorerScript" and did not say so).  Semantic acceptance and behaviour of unmarked text belong to C02.
+  (c) a text without the marker is ExplorerScript that the compiler accepts (otherwise the decompiler "could not produce structured
+      ExplorerScript" and did not say so).  The behaviour of the accepted text belongs to C02.
   (d) frame: the caller's op lists are unchanged.
 
 Input space: C02's space plus hand-made shapes aimed at what the structuring passes do not handle (gen.ssb.aimed_shapes):
@@ -26,7 +26,7 @@ CONTRACT_B = (
     "if convert()'s text starts with the line `//?: is-ssb-script: true`, ExplorerScriptSsbCompiler.compile(text) reproduces the input "
     "op for op (routines, kinds, targets, coroutine names, op names, parameters, jump targets)"
 )
-CONTRACT_C = "a text without the fallback marker parses as ExplorerScript"
+CONTRACT_C = "a text without the fallback marker parses as ExplorerScript and is accepted by the compiler"
 CONTRACT_D = "convert() leaves the caller's op lists unchanged"
 
 
@@ -56,6 +56,12 @@ def check(rs: dict) -> tuple[list[tuple[str, str, str, Any]], str]:
     r = K.guarded(lambda: ExplorerScriptReader(text).read())
     if isinstance(r, K.Raised):
         out.append((CONTRACT_C, f"unmarked-text-not-explorerscript:{r.sig}", r.describe(), es.text))
+        return out, "structured"
+    # ... and must be accepted by the compiler: a text the compiler rejects (a jump or call to a label that was never written, ...)
+    # is not "structured ExplorerScript" either, and it carries no marker.  (WHAT the accepted text does is C02's business.)
+    comp = es.recompile()
+    if isinstance(comp, K.Raised):
+        out.append((CONTRACT_C, f"unmarked-text-rejected-by-the-compiler:{comp.sig}", comp.describe(), es.text))
     return out, "structured"
 
 
